@@ -143,6 +143,9 @@ type Backend struct {
 	IgnoreReadErr bool    `json:"ignore_read_err,omitempty"` // answer per script even if reading the request failed
 	CloseBody     bool    `json:"close_body,omitempty"`      // call Request.Body.Close() after reading, before answering (as proxies do)
 	CloseAfterWrites int  `json:"close_after_writes,omitempty"` // with CloseBody: close only after this many response Write calls
+	CompressEnd      bool   `json:"compress_end,omitempty"`  // gRPC-Web trailer frame / Connect end-of-stream frame sent compressed (flag bit 0)
+	TrailerCase      string `json:"trailer_case,omitempty"`  // spelling of the names in the Trailer announcement: "" canonical | lower | mixed | upper
+	OKMessage        string `json:"ok_message,omitempty"`    // gRPC family: grpc-message sent next to grpc-status 0 (some servers do)
 	WritePerFrame    bool `json:"write_per_frame,omitempty"`    // one Write per frame of an enveloped response body (before chunking)
 	ReadAfterWrites  int  `json:"read_after_writes,omitempty"`  // full-duplex handler: reads the request only after this many response Write calls (0: reads first), and answers per script whatever the read yields
 }
